@@ -197,6 +197,12 @@ func (s *Schema) ValidateData(data []byte) error {
 		if err != nil {
 			return fmt.Errorf("failed to JSON remarshal data for validation: %w", err)
 		}
+	} else {
+		// JSON data gets the same content checks as its YAML encoding
+		err = json.Unmarshal(data, &any)
+		if err != nil {
+			return fmt.Errorf("failed to JSON unmarshal data for validation: %w", err)
+		}
 	}
 
 	if err := s.validate(schema.NewBytesLoader(data)); err != nil {
@@ -208,10 +214,6 @@ func (s *Schema) ValidateData(data []byte) error {
 
 // ValidateFile validates the given JSON file against the schema.
 func (s *Schema) ValidateFile(path string) error {
-	if filepath.Ext(path) == ".json" {
-		return s.validate(schema.NewReferenceLoader("file://" + path))
-	}
-
 	data, err := os.ReadFile(path)
 	if err != nil {
 		return err
@@ -308,7 +310,7 @@ func (c schemaContents) getDevices() ([]schemaContents, error) {
 
 // validateContents performs additional validation against the schema contents.
 func (s *Schema) validateContents(any map[string]interface{}) error {
-	if any == nil || s == nil {
+	if any == nil || s == nil || s.schema == nil {
 		return nil
 	}
 
